@@ -113,6 +113,8 @@ def render_line(it, s):
             return it['name'] + s['cgap'] + '=' + s['cgap'] + exprs.render(it['e'], sp)
         return it['name'] + s['ws1'] + 'EQU' + s['ws1'] + exprs.render(it['e'], sp)
     if t == 'str':
+        if it['d'] == 'bare':
+            return G.render_string(it['chars'], '"')
         return it['d'] + s['ws1'] + G.render_string(it['chars'], it.get('q', '"'))
     return G.render_item(it)
 
